@@ -296,6 +296,14 @@ func (r *SexpArray) Type() *RegisteredType {
 }
 
 func (arr *SexpArray) SexpString(ps *PrintState) string {
+	ps, ok := ps.enter(arr)
+	if !ok {
+		if arr.Infix {
+			return "{...}"
+		}
+		return "[...]"
+	}
+	defer ps.leave(arr)
 	indInner := ""
 	indent := ps.GetIndent()
 	innerPs := ps.AddIndent(4) // generates a fresh new PrintState
